@@ -57,6 +57,7 @@ func main() {
 		genC09(r)
 	case "C02":
 		genC02(r)
+		genSign(r, *prop)
 	case "C01", "C07", "C13":
 		genJwsRead(r, *prop)
 		genCoseRead(r, *prop)
